@@ -36,6 +36,9 @@ def containsL : List Char → List Char → Bool
 def contains (hay needle : String) : Bool := containsL hay.toList needle.toList
 def startsWith (s p : String) : Bool := p.toList.isPrefixOf s.toList
 
+/-- `int(q)` for a rational standing for a float: truncation toward zero -/
+def truncRat (q : Rat) : Int := if 0 ≤ q then q.floor else -((-q).floor)
+
 /-- `str(n)` / `f'{n}'` of a Python int -/
 def strOfInt (n : Int) : String := toString n
 
